@@ -53,6 +53,10 @@ def one_job(vh, job):
                 cases.append({"mismatch": {"prop": "C17", "what": "a transact call ended with an RPC error: the server executed the transaction and then failed to apply it",
                                            "detail": {"error": rpc[0][:300]}}, "trace": t})
                 continue
+            if t.get("stuck"):
+                cases.append({"mismatch": {"prop": "C17", "what": "the server never answered a monitor request made while transactions were in flight",
+                                           "detail": {"requests": t["stuck"][:3]}}, "trace": t})
+                continue
             if (i + 1) not in accepted or inv_violation:
                 what = "no serial order of the committed transactions explains the results, the notifications and the final contents"
                 if inv_violation and (i + 1) in accepted:
@@ -76,7 +80,7 @@ def confirm_fn(vh):
         with Scratch("cfser") as sc:
             with open(sc.path("trace.ndjson"), "w") as f:
                 f.write(json.dumps(case["trace"]) + "\n")
-            if any(c.get("rpcError") for c in case["trace"]["calls"]):
+            if any(c.get("rpcError") for c in case["trace"]["calls"]) or case["trace"].get("stuck"):
                 return [case["mismatch"]], None
             out = validate(sc.dir, vh)
             if tlc_prints(out, "ACCEPTED") and "is violated" not in out:
